@@ -541,7 +541,20 @@ pub fn play_lockstep(r: &mut Report, lab: &dyn Lab, s: &Script, cfg: &PlayCfg, r
         _ => {}
     }
     // disposition
-    if open_expected {
+    if open_expected && fnv(s.id.as_bytes()) % 3 == 0 {
+        // the last request asked for keep-alive; the client now half-closes and reads to EOF. Its FIN is not a
+        // request: nothing at all may be written in answer to it (exactly one response per request).
+        let _ = c.s.shutdown(std::net::Shutdown::Write);
+        let closed = c.wait_closed(Duration::from_secs(5));
+        if !c.buf.is_empty() {
+            viol(r, "C01/response-without-request", format!("the server wrote {} bytes in answer to the client's FIN after {} answered request(s): {:?}", c.buf.len(), s.reqs.len(), show(&c.buf, 60)), s, cfg, mode, lab, J::Null, replay);
+        } else {
+            r.count("half_close_endings_silent", 1);
+            if !closed {
+                r.count("half_close_not_closed_within_5s", 1);
+            }
+        }
+    } else if open_expected {
         // the last request asked for keep-alive: a further request must be answered
         let probe = ReqSpec { xid: format!("{}.probe", s.id), method: "GET", target: Target::R(0), conn: Some("close".into()), version: "HTTP/1.1", body: None };
         let ok = c.send(&probe.render(), &[], 0).is_ok();
@@ -715,6 +728,82 @@ pub fn play_panic_isolation(r: &mut Report, lab: &dyn Lab, rng: &mut Rng, id: &s
     }
 }
 
+/// A connection on which the client sends nothing and half-closes: zero requests, so zero responses.
+pub fn play_zero_requests(r: &mut Report, lab: &dyn Lab, id: &str, replay: &[String]) {
+    r.eval();
+    let mut c = match Conn::open(lab.addr()) {
+        Ok(c) => c,
+        Err(e) => {
+            r.inconclusive(format!("cannot connect to the lab app: {}", e));
+            return;
+        }
+    };
+    let _ = c.s.shutdown(std::net::Shutdown::Write);
+    c.wait_closed(Duration::from_secs(5));
+    if !c.buf.is_empty() {
+        r.violation("C01/response-without-request", format!("[{}] the server wrote {} bytes on a connection that carried no request at all: {:?}", lab.runtime(), c.buf.len(), show(&c.buf, 60)), J::obj(vec![("id", J::s(id)), ("runtime", J::s(lab.runtime()))]), replay.to_vec());
+    } else {
+        r.count("zero_request_connections_silent", 1);
+    }
+}
+
+/// One well-formed request on the app with a connection timeout, delivered in two segments that are further
+/// apart than the timeout. The timeout governs the wait *for a request*; whatever the server makes of a slow
+/// request, the request must get exactly one response (the regular one, or a 408 followed by close) and must
+/// not vanish.
+pub fn play_slow_request(r: &mut Report, lab: &dyn Lab, rng: &mut Rng, id: &str, replay: &[String]) {
+    let addr = match lab.timeout_addr() {
+        Some(a) => a,
+        None => return,
+    };
+    r.eval();
+    let body: Vec<u8> = format!("<{}.0>{}", id, "slow-body-".repeat(rng.urange(1, 6))).into_bytes();
+    let q = ReqSpec { xid: format!("{}.0", id), method: "POST", target: Target::Echo, conn: Some("close".into()), version: "HTTP/1.1", body: Some(body) };
+    let bytes = q.render();
+    let head_end = bytes.windows(4).position(|w| w == b"\r\n\r\n").map(|p| p + 4).unwrap_or(bytes.len());
+    // split point: after the first byte, inside the start line / headers, at the head/body boundary, inside the body
+    let split = match rng.below(4) {
+        0 => 1,
+        1 => rng.urange(2, head_end - 1),
+        2 => head_end,
+        _ => rng.urange(head_end, bytes.len() - 1).max(head_end).min(bytes.len() - 1),
+    };
+    let mut c = match Conn::open(addr) {
+        Ok(c) => c,
+        Err(e) => {
+            r.inconclusive(format!("cannot connect to the lab app: {}", e));
+            return;
+        }
+    };
+    let ex = J::obj(vec![("request", J::s(show(&bytes, 120))), ("split_at", J::u(split as u64)), ("pause_ms", J::u(TIMEOUT_MS * 8 / 5)), ("timeout_ms", J::u(TIMEOUT_MS)), ("runtime", J::s(lab.runtime()))]);
+    if c.s.write_all(&bytes[..split]).is_err() {
+        r.inconclusive("could not send the first segment of a slow request");
+        return;
+    }
+    std::thread::sleep(Duration::from_millis(TIMEOUT_MS * 8 / 5));
+    // the server may legitimately have answered 408 and closed in the pause: a failing write is not a verdict
+    let _ = c.s.write_all(&bytes[split..]);
+    match c.read_response(Duration::from_secs(10)) {
+        Ok(Some(m)) if m.status() == 408 => r.count("slow_requests_answered_408", 1),
+        Ok(Some(m)) => {
+            let exp = q.expected().unwrap();
+            let probs = judge_response(&q, &exp, &m);
+            if probs.is_empty() {
+                r.count("slow_requests_answered", 1);
+            } else {
+                for (k, what) in probs {
+                    r.violation(&format!("C01/slow-request:response:{}", k), format!("[{}] request delivered in two segments {} ms apart (timeout {} ms): {}", lab.runtime(), TIMEOUT_MS * 8 / 5, TIMEOUT_MS, what), ex.clone(), replay.to_vec());
+                }
+            }
+        }
+        Ok(None) if c.eof => r.violation("C01/slow-request:no-response", format!("[{}] a well-formed request delivered in two segments {} ms apart (connection timeout {} ms, split at byte {}) got no response at all: the connection was closed silently", lab.runtime(), TIMEOUT_MS * 8 / 5, TIMEOUT_MS, split), ex, replay.to_vec()),
+        Ok(None) => r.inconclusive("no response to a slow request within 10 s"),
+        Err(e) => r.violation("C01/response-malformed", format!("[{}] response to a slow request is not well-formed: {}", lab.runtime(), e), ex, replay.to_vec()),
+    }
+    // the echo handler's log entry is not part of this play's verdict: drop it
+    let _ = lab.take_log(&format!("{}.", id));
+}
+
 pub fn fingerprint(s: &Script) -> u64 {
     let mut v = Vec::new();
     for q in &s.reqs {
@@ -775,6 +864,12 @@ pub fn run_all(r: &mut Report, lab: &dyn Lab, seed: u64, shard: usize, nshards: 
         }
         if k % 40 == 7 {
             play_panic_isolation(r, lab, &mut rng, &format!("{}x", id), &replay);
+        }
+        if k % 25 == 3 {
+            play_zero_requests(r, lab, &format!("{}z", id), &replay);
+        }
+        if k % 16 == 5 {
+            play_slow_request(r, lab, &mut rng, &format!("{}y", id), &replay);
         }
         k += nshards as u64;
     }
